@@ -9,13 +9,15 @@
     zero-filled, 1 MiB-aligned pages: ids come from the counter `nextPage` and are never reused.
   * Page header: `cls, evac, brk, used, free, freeList` (per-page free list, head first).  The page
     chain `prev/next/firstPage/lastPage` is the list `plist` (first … last) of the class.
-  * The global free list `a.lists[class]` is the list `glist` (head first).  The doubly linked
-    pointer representation (node.prev/next/prevInPage/nextInPage) is ABSTRACTED to lists; the node
-    writes the code performs are kept as `clobber`s of the slot memory of exactly the slots whose node
-    fields are written (the slot itself, old list heads, list neighbours), so that "a live allocation
-    keeps its bytes" is a real statement about these writes.  That the pointer chains of the real
-    allocator stay well formed and equal to these lists is checked by the correspondence run
-    (verif_export.go walks next/prev and nextInPage/prevInPage), not proved.
+  * The global free list `a.lists[class]` is the list `glist` (head first).  Next to these abstract lists
+    the state carries the POINTER LAYER `heap` (section "pointer layer" below): every free slot's
+    node.prev/next/prevInPage/nextInPage, every page header's prev/next/freeList, lists/firstPage/lastPage,
+    updated by exactly the link writes of the code (hPush/hPop/hUnlinkG/hPurge/hLinkPage/hUnlinkPage read
+    only pointers).  `Props.C20.rep_inv` proves that the pointer layer always spells the abstract lists, so the
+    decisions the code takes by reading pointers are the ones the list model takes; the harness compares
+    every link field with the real allocator's memory.  The node writes are additionally kept as `clobber`s of
+    the slot memory of exactly the slots whose node fields are written (the slot itself, old list heads, list
+    neighbours), so that "a live allocation keeps its bytes" is a real statement about these writes.
   * Slot memory: the three slice-header words `data,len,cap` and the payload as an abstract value
     `val : Option V` (`none` = unspecified bytes).  A free slot's node overlays all three words and
     payload bytes 0..7 (`nodeNextInPageOff = sliceHdrLen`), hence `junk`.
